@@ -15,27 +15,53 @@ Proof. rewrite compare_eq_eqb. destruct (String.eqb a b); split; congruence. Qed
 Section Sorted.
   Context {A : Type} (key : A -> string).
 
-  Lemma sfind_sinsert_same v l : sfind key (key v) (sinsert key v l) = Some v.
+  Lemma sfind_sreplace_same v l : sfind key (key v) l <> None -> sfind key (key v) (sreplace key v l) = Some v.
+  Proof.
+    induction l as [|x r IH]; cbn; [congruence|].
+    destruct (String.eqb (key v) (key x)) eqn:E; cbn.
+    - rewrite String.eqb_refl. reflexivity.
+    - rewrite E. exact IH.
+  Qed.
+
+  Lemma sfind_sins_same v l : sfind key (key v) l = None -> sfind key (key v) (sins_sorted key v l) = Some v.
   Proof.
     induction l as [|x r IH]; cbn.
     - rewrite String.eqb_refl. reflexivity.
-    - destruct (String.compare (key v) (key x)) eqn:C; cbn.
+    - destruct (String.eqb (key v) (key x)) eqn:E; [discriminate|]. intros H.
+      destruct (String.ltb (key v) (key x)); cbn.
       + rewrite String.eqb_refl. reflexivity.
-      + rewrite String.eqb_refl. reflexivity.
-      + assert (String.eqb (key v) (key x) = false) as ->.
-        { apply compare_neq_eqb. congruence. }
-        exact IH.
+      + rewrite E. apply IH. exact H.
   Qed.
 
-  Lemma sfind_sinsert_other k v l : k <> key v -> sfind key k (sinsert key v l) = sfind key k l.
+  Lemma sfind_sinsert_same v l : sfind key (key v) (sinsert key v l) = Some v.
+  Proof.
+    unfold sinsert. destruct (sfind key (key v) l) eqn:E.
+    - apply sfind_sreplace_same. congruence.
+    - apply sfind_sins_same. exact E.
+  Qed.
+
+  Lemma sfind_sreplace_other k v l : k <> key v -> sfind key k (sreplace key v l) = sfind key k l.
+  Proof.
+    intros Hk. assert (Hf : String.eqb k (key v) = false) by (apply String.eqb_neq; exact Hk).
+    induction l as [|x r IH]; cbn; [reflexivity|].
+    destruct (String.eqb (key v) (key x)) eqn:E; cbn.
+    - apply String.eqb_eq in E. rewrite Hf, <- E, Hf. reflexivity.
+    - destruct (String.eqb k (key x)); [reflexivity | exact IH].
+  Qed.
+
+  Lemma sfind_sins_other k v l : k <> key v -> sfind key k (sins_sorted key v l) = sfind key k l.
   Proof.
     intros Hk. assert (Hf : String.eqb k (key v) = false) by (apply String.eqb_neq; exact Hk).
     induction l as [|x r IH]; cbn.
     - rewrite Hf. reflexivity.
-    - destruct (String.compare (key v) (key x)) eqn:C; cbn.
-      + rewrite Hf. apply String.compare_eq_iff in C. rewrite <- C, Hf. reflexivity.
+    - destruct (String.ltb (key v) (key x)); cbn.
       + rewrite Hf. reflexivity.
       + destruct (String.eqb k (key x)); [reflexivity | exact IH].
+  Qed.
+
+  Lemma sfind_sinsert_other k v l : k <> key v -> sfind key k (sinsert key v l) = sfind key k l.
+  Proof.
+    intros Hk. unfold sinsert. destruct (sfind key (key v) l); [apply sfind_sreplace_other | apply sfind_sins_other]; exact Hk.
   Qed.
 
   Lemma sfind_key k l x : sfind key k l = Some x -> key x = k.
@@ -52,13 +78,19 @@ Section Sorted.
     destruct (String.eqb k (key y)); intros H; [inversion H; auto | right; auto].
   Qed.
 
-  Lemma sinsert_in v l x : In x (sinsert key v l) -> x = v \/ In x l.
+  Lemma sreplace_in v l x : In x (sreplace key v l) -> x = v \/ In x l.
+  Proof.
+    induction l as [|y r IH]; cbn; [auto|].
+    destruct (String.eqb (key v) (key y)); cbn; intros [H|H]; auto. destruct (IH H); auto.
+  Qed.
+  Lemma sins_in v l x : In x (sins_sorted key v l) -> x = v \/ In x l.
   Proof.
     induction l as [|y r IH]; cbn.
     - intros [H|[]]; auto.
-    - destruct (String.compare (key v) (key y)); cbn; intros [H|H]; auto.
-      destruct (IH H); auto.
+    - destruct (String.ltb (key v) (key y)); cbn; intros [H|H]; auto. destruct (IH H); auto.
   Qed.
+  Lemma sinsert_in v l x : In x (sinsert key v l) -> x = v \/ In x l.
+  Proof. unfold sinsert. destruct (sfind key (key v) l); [apply sreplace_in | apply sins_in]. Qed.
 
   Lemma sremove_in k l x : In x (sremove key k l) -> In x l.
   Proof.
